@@ -43,6 +43,10 @@
 EXTENDS Integers, Sequences, FiniteSets
 
 CONSTANTS
+    Worker,                            \* concurrent callers of ingest_operation on the one store
+                                       \* (several pipelines / streams sharing it); strings
+    Variant_ReadLatestBeforeBegin,     \* NOT the code: the latest entry read with a plain pool read
+                                       \* before begin() - documents why the read sits inside the tx
     Defect_PruneAfterFailedIngest,     \* C04 as found: a failed ingest still reaches LogPrune with
                                        \* the args Event::new derived from the unverified header
     Defect_PruneFlagSkipsLatestCheck,  \* C05 as found: prune flag + seq > 0 => no comparison with
@@ -57,9 +61,13 @@ VARIABLES
     pruneQ,     \* events ingested, waiting for the LogPrune stage  (FIFO)
     applied,    \* prune points [a, l, seq] whose LogPrune ran as the effect of a validated op
     ingested,   \* prune points [a, l, seq] ever INSERTED by ingest (history, for C05)
-    last        \* the event `Pipeline::process` returned last (NoEvent at the start)
+    last,       \* the event `Pipeline::process` returned last (NoEvent at the start)
+    ing,        \* per worker: the ingest_operation call it is executing [pc, item, tip]
+    permQ,      \* workers waiting in store.begin() for the transaction permit (tokio semaphore: FIFO)
+    holder      \* the worker holding the transaction permit ("" = free)
 
-vars == <<store, inQ, pruneQ, applied, ingested, last>>
+ivars == <<ing, permQ, holder>>
+vars == <<store, inQ, pruneQ, applied, ingested, last, ing, permQ, holder>>
 
 ---------------------------------------------------------------------------
 (* Items.  `id` stands for the operation hash (operation id); ids are      *)
@@ -131,14 +139,18 @@ ToDelete(S, ev) ==
 
 PrunePoint(it) == [a |-> it.a, l |-> it.l, seq |-> it.seq]
 
+NoWorker == ""
+IdleCall == [pc |-> "idle", item |-> NoEntry, tip |-> NoEntry]
+
 ---------------------------------------------------------------------------
 Init ==
     /\ store = {} /\ inQ = <<>> /\ pruneQ = <<>>
     /\ applied = {} /\ ingested = {} /\ last = NoEvent
+    /\ ing = [w \in Worker |-> IdleCall] /\ permQ = <<>> /\ holder = NoWorker
 
 Submit(it) ==
     /\ inQ' = Append(inQ, it)
-    /\ UNCHANGED <<store, pruneQ, applied, ingested, last>>
+    /\ UNCHANGED <<store, pruneQ, applied, ingested, last, ivars>>
 
 IngestStep ==
     /\ inQ # <<>>
@@ -149,7 +161,76 @@ IngestStep ==
                          THEN ingested \cup {PrunePoint(it)} ELSE ingested
           /\ pruneQ' = Append(pruneQ, [item |-> it, res |-> res])
     /\ inQ' = Tail(inQ)
-    /\ UNCHANGED <<applied, last>>
+    /\ UNCHANGED <<applied, last, ivars>>
+
+---------------------------------------------------------------------------
+(* The same call, one action per await point, for several concurrent callers.  IngestStep above   *)
+(* is one call running alone; the steps below are what TLC interleaves when Worker has >= 2       *)
+(* elements (operation.rs line numbers).                                                           *)
+
+Finish(w, it, res) ==
+    /\ pruneQ' = Append(pruneQ, [item |-> it, res |-> res])
+    /\ ing' = [ing EXCEPT ![w] = IdleCall]
+
+\* the caller takes the next event and enters ingest_operation
+IngStart(w) ==
+    /\ ing[w].pc = "idle" /\ inQ # <<>>
+    /\ ing' = [ing EXCEPT ![w] = [pc |-> "validate", item |-> Head(inQ), tip |-> NoEntry]]
+    /\ inQ' = Tail(inQ)
+    /\ UNCHANGED <<store, pruneQ, applied, ingested, last, permQ, holder>>
+
+\* :36 validate_operation; :41 store.begin() = join the FIFO queue of the permit semaphore
+IngValidate(w) ==
+    /\ ing[w].pc = "validate"
+    /\ LET it == ing[w].item
+       IN IF ~it.wf \/ ~ArrivedOnOwnLog(it)
+          THEN Finish(w, it, "Rejected") /\ UNCHANGED <<permQ>>
+          ELSE /\ ing' = [ing EXCEPT ![w].pc = "wait",
+                                     ![w].tip = IF Variant_ReadLatestBeforeBegin
+                                                THEN Latest(store, it.a, it.l) ELSE NoEntry]
+               /\ permQ' = Append(permQ, w)
+               /\ UNCHANGED pruneQ
+    /\ UNCHANGED <<store, inQ, applied, ingested, last, holder>>
+
+\* begin() returns: permit acquired, transaction open
+IngBegin(w) ==
+    /\ ing[w].pc = "wait" /\ holder = NoWorker /\ permQ # <<>> /\ Head(permQ) = w
+    /\ holder' = w /\ permQ' = Tail(permQ)
+    /\ ing' = [ing EXCEPT ![w].pc = "exists"]
+    /\ UNCHANGED <<store, inQ, pruneQ, applied, ingested, last>>
+
+\* :47-58 has_operation_tx; rollback + Ok(false) when it exists
+IngCheckExists(w) ==
+    /\ ing[w].pc = "exists" /\ holder = w
+    /\ LET it == ing[w].item
+       IN IF \E e \in store : e.id = it.id
+          THEN Finish(w, it, "AlreadyExists") /\ holder' = NoWorker
+          ELSE ing' = [ing EXCEPT ![w].pc = "read"] /\ UNCHANGED <<pruneQ, holder>>
+    /\ UNCHANGED <<store, inQ, applied, ingested, last, permQ>>
+
+\* :62-66 get_latest_entry_tx - INSIDE the transaction, under the permit
+IngReadLatest(w) ==
+    /\ ing[w].pc = "read" /\ holder = w
+    /\ ing' = [ing EXCEPT ![w].pc = "insert",
+                          ![w].tip = IF Variant_ReadLatestBeforeBegin THEN ing[w].tip
+                                     ELSE Latest(store, ing[w].item.a, ing[w].item.l)]
+    /\ UNCHANGED <<store, inQ, pruneQ, applied, ingested, last, permQ, holder>>
+
+\* :70 validate_prunable_backlink against the tip read above; :76-90 insert, associate, commit
+IngInsertCommit(w) ==
+    /\ ing[w].pc = "insert" /\ holder = w
+    /\ LET it == ing[w].item
+           res == IF ValidatePrunableBacklink(ing[w].tip, it) THEN "Inserted" ELSE "Rejected"
+       IN /\ store' = IF res = "Inserted" THEN store \cup {Entry(it)} ELSE store
+          /\ ingested' = IF res = "Inserted" /\ it.prune
+                         THEN ingested \cup {PrunePoint(it)} ELSE ingested
+          /\ Finish(w, it, res)
+    /\ holder' = NoWorker          \* commit / (error path) permit dropped
+    /\ UNCHANGED <<inQ, applied, last, permQ>>
+
+IngestCall(w) ==
+    \/ IngStart(w) \/ IngValidate(w) \/ IngBegin(w)
+    \/ IngCheckExists(w) \/ IngReadLatest(w) \/ IngInsertCommit(w)
 
 LogPruneStep ==
     /\ pruneQ # <<>>
@@ -160,7 +241,7 @@ LogPruneStep ==
                         THEN applied \cup {PrunePoint(ev.item)} ELSE applied
           /\ last' = [item |-> ev.item, res |-> ev.res, pruned |-> Cardinality(del)]
     /\ pruneQ' = Tail(pruneQ)
-    /\ UNCHANGED <<inQ, ingested>>
+    /\ UNCHANGED <<inQ, ingested, ivars>>
 
 ---------------------------------------------------------------------------
 (* C01  only authentic, well-formed operations are ingested or delivered   *)
@@ -171,7 +252,9 @@ C01_InvalidNeverCompleted ==            \* `is_completed` / StreamEvent::Process
     /\ \A i \in DOMAIN pruneQ : ~pruneQ[i].item.wf => pruneQ[i].res = "Rejected"
     /\ last # NoEvent /\ ~last.item.wf => last.res = "Rejected"
 
-IsIngestStep == inQ # <<>> /\ inQ' = Tail(inQ) /\ Len(pruneQ') = Len(pruneQ) + 1
+\* an ingest_operation call returns (either grain): its event is appended to pruneQ
+IsIngestStep == Len(pruneQ') = Len(pruneQ) + 1
+IngestedItem == pruneQ'[Len(pruneQ')].item
 IsPruneStep == pruneQ # <<>> /\ pruneQ' = Tail(pruneQ)
 
 A_C01_RejectLeavesNoTrace ==
@@ -205,7 +288,7 @@ NonExtending(S, it) ==
 
 A_C03_RejectsNonExtending ==
     IsIngestStep /\ pruneQ'[Len(pruneQ')].res = "Inserted"
-        => LET it == Head(inQ) IN it.wf /\ ~NonExtending(store, it)
+        => IngestedItem.wf /\ ~NonExtending(store, IngestedItem)
 C03_RejectsNonExtending == [][A_C03_RejectsNonExtending]_vars
 
 ---------------------------------------------------------------------------
